@@ -158,8 +158,8 @@ func runC02(c *core.Ctx) {
 		c.Rule("R2.9", "the tiers are wired as the orchestrators assume (first handler constructor = L1, second = L2, in the accept loop and in main for both ports): a swap makes the authoritative tier the one that evicts", 3)
 		runR118(c, "R2.9")
 		c.Share(map[string]string{"R4.11": "R2.8", "R4.12": "R2.12"}, runC04)
-		c.Share(map[string]string{"R1.11": "R2.10"}, runC01) // misaligned keys/opaques make the reply to a key depend on whether another key was in L1
-		c.Share(map[string]string{"R3.4": "R2.11"}, runC03)  // a port that locks through the wrong table lets a delete slip between a get's L2 read and its L1 back-fill // an L1 append that changes the flags makes L1 differ from L2
+		c.Share(map[string]string{"R1.11": "R2.10", "R1.10": "R2.13"}, runC01) // misaligned keys/opaques make the reply to a key depend on whether another key was in L1
+		c.Share(map[string]string{"R3.4": "R2.11", "R3.6": "R2.14"}, runC03)  // a port that locks through the wrong table lets a delete slip between a get's L2 read and its L1 back-fill // an L1 append that changes the flags makes L1 differ from L2
 		c.Share(map[string]string{"R3.1": "R2.7"}, runC03)   // a TTL/value change under the shared lock interleaves with a get's back-fill: L1 keeps what L2 dropped
 	}()
 	c.Rule("R2.1", "every L1 operation that changes a value, presence or TTL is dominated by the success of an L2 operation on the same key in the same command", 18)
